@@ -368,7 +368,7 @@ func (srv *Srv) write(req *SrvReq) {
 		return
 	}
 
-	if !fid.opened || (fid.Type&QTDIR) != 0 || (fid.Omode&3) == OREAD {
+	if !fid.opened || (fid.Type&QTDIR) != 0 || ((fid.Omode&3) != OWRITE && (fid.Omode&3) != ORDWR) {
 		req.RespondError(Ebaduse)
 		return
 	}
